@@ -220,6 +220,7 @@ func (c *ctx) realClientConn(i int) {
 					c.vs("C01/decode-rejects-rfc-bytes", rp.Body.Kind, "client op %d: library decoder rejected an RFC-laid-out %s: %s", k, rp.Body.Kind, de)
 				} else if d, ok := decoded[k]; ok && !d.Same(rp.Body) {
 					c.vs("C01/decode-differs", rp.Body.Kind, "client op %d: library decoder of %s yields a different value than the RFC layout carries", k, rp.Body.Kind)
+					c.vs("C02/decoded-value-differs", rp.Body.Kind, "client op %d: a %s value that encodes without error decodes, without error, to a different value", k, rp.Body.Kind)
 				}
 			}
 		}
